@@ -36,6 +36,8 @@ func ruleC19(c *Check) {
 	c.paramSetExact("C19.8")
 	c.genesisImportsAll("C19.5")
 	c.siblingBounds("C19.6")
+	c.earnRules("C19")
+	c.withdrawRules("C19")
 	c.genesisNotStricterThanMessages("C19.6")
 	c.addressRoles("C19.9")
 }
